@@ -325,6 +325,7 @@ func runC14Strings(ctx *Ctx) {
 	}
 	c14Regex(ctx, n*2)
 	c14Dates(ctx, n*2)
+	c14TimeAddFractions(ctx, ctx.N(500, 5000))
 	c14Csv(ctx, n*2)
 }
 
@@ -581,6 +582,14 @@ func genTimestamp(ctx *Ctx) string {
 		frac = fmt.Sprintf(".%d", r.Intn(1000))
 	case 1:
 		frac = ".123456789"
+	case 2:
+		// 4 to 9 digits: fractions that are not exact in binary (a seeded change parsed the fraction
+		// through a float64 and lost a nanosecond for about 2 % of them)
+		k := 4 + r.Intn(6)
+		frac = "."
+		for i := 0; i < k; i++ {
+			frac += string(rune('0' + r.Intn(10)))
+		}
 	}
 	zone := "Z"
 	switch r.Intn(4) {
@@ -774,6 +783,18 @@ func c14Dates(ctx *Ctx, n int) {
 		runGlue(ctx, c)
 		// timeadd
 		dur := sv(durs[r.Intn(len(durs))])
+		if m := rfc3339Re.FindStringSubmatch(ts.AsString()); m != nil && m[7] != "" && r.Intn(2) == 0 {
+			// a duration that brings the sum exactly onto a whole second: the only place where the
+			// sub-second part of the parsed timestamp is visible in the RFC 3339 result
+			fr := (m[7][1:] + "000000000")[:9]
+			ns, _ := strconv.Atoi(fr)
+			if r.Intn(2) == 0 {
+				dur = sv(fmt.Sprintf("%dns", 1000000000-ns))
+			} else {
+				dur = sv(fmt.Sprintf("-%dns", ns))
+			}
+			ctx.Tag("timeadd:onto-whole-second")
+		}
 		o = newOracle()
 		t, ok = o.parseTimestamp(ts.AsString())
 		c = glueCase{name: "timeadd", goNm: "TimeAdd", f: stdlib.TimeAddFunc, args: []cty.Value{ts, dur}, orc: o}
@@ -792,6 +813,34 @@ func c14Dates(ctx *Ctx, n int) {
 			}
 		}
 		runGlue(ctx, c)
+	}
+}
+
+// c14TimeAddFractions: timestamps with 4 to 9 fraction digits plus the duration that lands exactly on a
+// whole second (from below and from above), against time.Parse / Add / Format.
+func c14TimeAddFractions(ctx *Ctx, n int) {
+	r := ctx.R
+	for i := 0; i < n; i++ {
+		k := 4 + r.Intn(6)
+		fr := ""
+		for j := 0; j < k; j++ {
+			fr += string(rune('0' + r.Intn(10)))
+		}
+		ns, _ := strconv.Atoi((fr + "000000000")[:9])
+		ts := fmt.Sprintf("2020-%02d-%02dT%02d:%02d:%02d.%sZ", 1+r.Intn(12), 1+r.Intn(28), r.Intn(24), r.Intn(60), r.Intn(60), fr)
+		for _, dur := range []string{fmt.Sprintf("%dns", 1000000000-ns), fmt.Sprintf("-%dns", ns)} {
+			o := newOracle()
+			t, ok := o.parseTimestamp(ts)
+			d, err := time.ParseDuration(dur)
+			o.add("parseDuration", []string{dur}, encBool(err == nil))
+			if !ok || err != nil {
+				continue
+			}
+			lib := t.Add(d).Format(time.RFC3339)
+			o.add("timeAdd", []string{ts, dur}, encStr(lib))
+			ctx.Tag("timeadd:fraction-onto-whole-second")
+			runGlue(ctx, glueCase{name: "timeadd", goNm: "TimeAdd", f: stdlib.TimeAddFunc, args: []cty.Value{sv(ts), sv(dur)}, orc: o, want: sv(o.nfc(lib))})
+		}
 	}
 }
 
